@@ -5,8 +5,10 @@ import Verif.Model.Metered
 * `run …`: the spec is judged directly — the run must end (no `hang`), must not crash, and must end
   normally or with a *user* error (computation / memory limit, call depth, or any other user error);
   an internal error, an escaped Go panic, a crash or a hang is a violation.
-* `depth <configured> <D>`: `f(D)` nests `D + 1` calls; the model (`interpNested`, `depth` theorem) says
-  it succeeds iff `D + 1 ≤ limit`; each engine is compared with that. -/
+* `depth <configured> <D> [<shape>]`: `f(D)` nests `D + 1` calls below the entry point (as a function,
+  method, closure, mutually recursive pair, or a closure inside a transaction's prepare); the model
+  (`interpNested` / `vmNested`, theorems `depth`, `depth_engines_agree`) says it succeeds in both engines
+  iff `D + 1 ≤ limit`; each engine is compared with that. -/
 open Verif.Proto Verif.Model.Metered
 
 def isOk (o : String) : Bool := o == "ok"
@@ -14,31 +16,28 @@ def isDepthErr (o : String) : Bool := o == "err:user:interpreter.CallStackLimitE
 
 def judge (op : List String) (go : String) : Verdict :=
   match op with
-  | ["depth", cfg, d] =>
-    match cfg.toNat?, d.toNat? with
-    | some configured, some dd =>
+  | "depth" :: cfg :: d :: shape =>
+    match cfg.toNat?, d.toNat?, decide (shape.length ≤ 1) with
+    | some configured, some dd, true =>
       let n := dd + 1
       let eff := interpEffectiveLimit configured
       let want := (interpNested configured n).isSome          -- true = succeeds
-      let tags := [s!"configured={configured}", if want then "within-limit" else "beyond-limit",
+      let wantVM := (vmNested configured n).isSome             -- (= want: depth_engines_agree)
+      let tags := [s!"configured={configured}", s!"shape={shape.headD "fun"}", if want then "within-limit" else "beyond-limit",
                    if n == eff || n == eff + 1 then "!nt-boundary" else "!nt"]
-      match (go.splitOn " ").map (fun w => (w.splitOn "=")) with
+      -- (`slow` / `retried` markers of the harness carry no `=`)
+      match ((go.splitOn " ").filter (fun w => w.contains '=')).map (fun w => (w.splitOn "=")) with
       | [["interp", oi], ["vm", ov]] =>
         let good (o : String) : Bool := if want then isOk o else isDepthErr o
         if !(good oi) then
           .violation "interp-depth-limit-wrong" s!"recursion {n} deep under limit {eff}: {if want then "ok" else "CallStackLimitExceededError"}" tags
+        else if wantVM != want then .modelDiff "the model's engines disagree" tags
         else if good ov then .ok tags
-        else if configured != 0 && (isOk ov || isDepthErr ov) && ((vmNested configured n).isSome == isOk ov) then
-          .violation "vm-ignores-configured-stack-depth-limit"
-            s!"both engines enforce runtime.Config.StackDepthLimit = {configured}: recursion {n} deep must {if want then "succeed" else "fail with CallStackLimitExceededError"} (the VM applies the default 2000)" tags
-        else if configured == 0 && n == eff && isDepthErr ov then
-          .violation "vm-depth-limit-off-by-one"
-            s!"recursion exactly {eff} deep succeeds in both engines (the VM counts the entry point's frame)" tags
         else .violation "engines-disagree-on-depth" "the same call-depth behaviour in both engines" tags
       | _ =>
         if go == "hang" || go.startsWith "crash:" then .violation "depth-crash-or-hang" "call-depth error, never a crash" tags
         else .skip "bad-observation"
-    | _, _ => .skip "bad-depth-op"
+    | _, _, _ => .skip "bad-depth-op"
   | "run" :: engine :: comp :: mem :: family :: _ =>
     let tags := [engine, family, s!"comp={comp}", s!"mem={mem}"]
     if go == "hang" then
